@@ -105,6 +105,9 @@ def decode_entry(entry) -> bytes:
     return entry.raw_body
 
 
+
+FILTER_WS = [(' ', '', ''), ('\n', '', ''), (' ', '', ''), ('\t', '', '\n'), ('  ', ' ', ' '), (' ', '', ''), ('\n        ', '\n        ', '\n    ')]
+
 class Sink:
     """dispatcher component of a subscriber's fake HTTP server: records every notification / SubscriptionEnd it receives."""
 
@@ -576,7 +579,10 @@ class Rig:
             req.EndTo.ReferenceParameters = [self._rp(t, v) for t, v in end[1]]
         req.Expires = st['expires'] if st['expires'] is not None else 1
         if st['dialect'] is not None:
-            req.set_filter(' '.join(filter_uris))
+            # the filter is a white space separated list of URIs (xs:list): blanks, line breaks and tabs of a pretty-printed request included
+            sep, lead, trail = FILTER_WS[k % len(FILTER_WS)]
+            req.set_filter(lead + sep.join(filter_uris) + trail)
+            ctx.count(f'subscribe.filter_whitespace.{k % len(FILTER_WS)}')
             if st['dialect'] != 'action':
                 req.Filter.Dialect = st['dialect']
         nsh = self.mf.ns_hlp
